@@ -150,3 +150,180 @@ func TestC08Regress(t *testing.T) {
 		t.Fatalf("F5: %s", d)
 	}
 }
+
+// F12: Count() on the iterator of an absent term.
+func TestC05Regress(t *testing.T) {
+	seg := mustBuild(t, Batch{{Fields: []Field{{Name: "a", Len: 1, Terms: []Term{{T: "x", Freq: 1}}}}}}, 1025)
+	for _, ft := range [][2]string{{"a", "absent"}, {UnknownField, "x"}} {
+		err := safely("absent term", func() error {
+			d, err := seg.Dictionary(ft[0])
+			if err != nil {
+				return err
+			}
+			pl, err := d.PostingsList([]byte(ft[1]), nil, nil)
+			if err != nil {
+				return err
+			}
+			it, err := pl.Iterator(true, true, true, nil)
+			if err != nil {
+				return err
+			}
+			if pl.Count() != 0 || it.Count() != 0 {
+				t.Fatalf("F12: counts %d/%d", pl.Count(), it.Count())
+			}
+			p, err := it.Next()
+			if p != nil || err != nil {
+				t.Fatalf("F12: Next on empty iterator: %v %v", p, err)
+			}
+			return nil
+		})
+		if err != nil {
+			t.Fatalf("F12 (%s/%s): %v", ft[0], ft[1], err)
+		}
+	}
+}
+
+// F13: Iterator over an empty [k,k) range whose bound is an existing term.
+func TestC08RegressRange(t *testing.T) {
+	seg := mustBuild(t, Batch{{Fields: []Field{{Name: "title", Len: 1, Terms: []Term{{T: "\x00", Freq: 1}, {T: "b", Freq: 1}}}}}}, 1)
+	d, err := seg.Dictionary("title")
+	if err != nil {
+		t.Fatal(err)
+	}
+	for _, k := range []string{"\x00", "b"} {
+		it := d.Iterator(nil, []byte(k), []byte(k))
+		e, err := it.Next()
+		if err != nil || e != nil {
+			t.Fatalf("F13: empty range [%q,%q) returned %v, %v", k, k, e, err)
+		}
+	}
+	it := d.Iterator(nil, []byte("\x00"), []byte("b"))
+	e, err := it.Next()
+	if err != nil || e == nil || e.Term() != "\x00" {
+		t.Fatalf("range [0,b): %v %v", e, err)
+	}
+	if e, _ := it.Next(); e != nil {
+		t.Fatalf("range [0,b) returned a second term %q", e.Term())
+	}
+}
+
+// F7: re-persisting a loaded segment.
+func TestC11Regress(t *testing.T) {
+	ctx := &Ctx{}
+	defer ctx.Close()
+	for _, b := range []Batch{nil, {{Fields: []Field{{Name: "a", Len: 1, Store: true, Value: "v", Terms: []Term{{T: "x", Freq: 1}}}}}}} {
+		seg := mustBuild(t, b, 1)
+		first, err := Persist(seg)
+		if err != nil {
+			t.Fatal(err)
+		}
+		if err := checkFile("built", first, seg, 1); err != nil {
+			t.Fatal(err)
+		}
+		m, err := LoadMem(first)
+		if err != nil {
+			t.Fatal(err)
+		}
+		f, err := ctx.LoadFile(first)
+		if err != nil {
+			t.Fatal(err)
+		}
+		for _, s := range []segment.Segment{m, f} {
+			again, err := Persist(s)
+			if err != nil {
+				t.Fatal(err)
+			}
+			if err := checkFile("F7 re-persisted", again, s, 1); err != nil {
+				t.Fatal(err)
+			}
+			if string(again) != string(first) {
+				t.Fatalf("F7: re-persisted file differs")
+			}
+		}
+	}
+}
+
+// F8: a used postings list reused on the dictionary of an unknown field.
+func TestC13Regress(t *testing.T) {
+	seg := mustBuild(t, Batch{{Fields: []Field{{Name: "a", Len: 1, Terms: []Term{{T: "x", Freq: 1}}}}}}, 1025)
+	err := safely("F8", func() error {
+		d, err := seg.Dictionary("a")
+		if err != nil {
+			return err
+		}
+		pl, err := d.PostingsList([]byte("x"), nil, nil)
+		if err != nil {
+			return err
+		}
+		u, err := seg.Dictionary(UnknownField)
+		if err != nil {
+			return err
+		}
+		pl2, err := u.PostingsList([]byte("x"), nil, pl)
+		if err != nil {
+			return err
+		}
+		ps, err := WalkPostings(pl2, true, true, true)
+		if err != nil {
+			return err
+		}
+		if len(ps) != 0 || pl2.Count() != 0 {
+			t.Fatalf("F8: unknown field yields %v", ps)
+		}
+		return nil
+	})
+	if err != nil {
+		t.Fatalf("F8: %v", err)
+	}
+}
+
+// F9: merged SumTotalTermFrequency.
+func TestC16Regress(t *testing.T) {
+	b1 := Batch{{Fields: []Field{{Name: "_id", Len: 4, Terms: []Term{{T: "x", Freq: 2}, {T: "y", Freq: 2}}}}}, {Fields: []Field{{Name: "_id", Len: 3, Terms: []Term{{T: "x", Freq: 3}}}}}}
+	b2 := Batch{{Fields: []Field{{Name: "_id", Len: 3, Terms: []Term{{T: "x", Freq: 1}, {T: "z", Freq: 2}}}}}}
+	drops := []*roaring.Bitmap{roaring.BitmapOf(1), nil}
+	bs, _, err := MergeBytes([]segment.Segment{mustBuild(t, b1, 1025), mustBuild(t, b2, 1025)}, drops, 1025)
+	if err != nil {
+		t.Fatal(err)
+	}
+	m, err := LoadMem(bs)
+	if err != nil {
+		t.Fatal(err)
+	}
+	exp, _ := MergeExpect([]*XSeg{Expect(b1, normFns[0].F), Expect(b2, normFns[0].F)}, drops)
+	obs, err := Observe(m, ProbeFields, Facets{Stats: true})
+	if err != nil {
+		t.Fatal(err)
+	}
+	if d := Diff(exp, obs, Facets{Stats: true}); d != "" {
+		t.Fatalf("F9: %s", d)
+	}
+	if s := obs.Stats["_id"]; s.SumTTF != 7 || s.DocCount != 2 {
+		t.Fatalf("F9: stats %+v", s)
+	}
+}
+
+// F10: DocsMatchingTerms with unknown / empty field names.
+func TestC18Regress(t *testing.T) {
+	seg := mustBuild(t, Batch{{Fields: []Field{{Name: "a", Len: 1, Terms: []Term{{T: "x", Freq: 1}}}}}}, 1025)
+	for _, list := range [][]segment.Term{
+		{ftTerm{UnknownField, "x"}},
+		{ftTerm{"", "x"}, ftTerm{"a", "x"}},
+		{ftTerm{"a", "x"}, ftTerm{UnknownField, "x"}, ftTerm{"a", "y"}},
+	} {
+		var bm *roaring.Bitmap
+		err := safely("F10", func() error { var e error; bm, e = seg.DocsMatchingTerms(list); return e })
+		if err != nil {
+			t.Fatalf("F10 %v: %v", list, err)
+		}
+		want := uint64(0)
+		for _, x := range list {
+			if x.Field() == "a" && string(x.Term()) == "x" {
+				want = 1
+			}
+		}
+		if bm.GetCardinality() != want {
+			t.Fatalf("F10 %v: got %v", list, bm)
+		}
+	}
+}
